@@ -37,7 +37,7 @@ Inductive call :=
 | CEnd (k : nat) (e : eview)
 | CTune (k : nat) (slow : bool) (e : eview) (hist : option (list Z))
 | CEndWarmup (k : nat) (ntune : nat).
-Definition kcall := (call * key)%type.
+Notation kcall := (call * key)%type (only parsing).
 
 (* kernel.py  TransitionMixin.transition: lax.cond(is_adaptation(epoch.config.type), adaptive, standard) *)
 Definition k_transition (k : nat) (e : eview) : call := CTrans k (is_adapt (ety_ (v_cfg e))) e.
